@@ -27,7 +27,7 @@ def budget(tier):
 
 
 def essential_labels(tier):
-    return ["nd_array_of_dynamic_items", "non_C_order", "struct_2plus_dynamic_fields", "write_via_view", "write_via_handle", "grown"]
+    return ["nd_array_of_dynamic_items", "non_C_order", "struct_2plus_dynamic_fields", "write_via_view", "write_via_handle", "grown", "write_after_growth"]
 
 
 write_spec = st.fixed_dictionaries(
@@ -102,7 +102,16 @@ def compare_chains(handle, view, node, expected, labels, stage):
         if is_raised(ho) or is_raised(vo):
             r = ho if is_raised(ho) else vo
             return fail("navigate_raised", f"{stage} {path}: {r}", r.key)
+        cnode = ho[1]
         ho, vo = ho[0], vo[0]
+        if cspec["k"] == "array" and cspec["item"]["k"] == "scalar":
+            # the bulk accessor is a read like any other: same values through the handle chain and the view chain
+            # (asked at every stage, so an object that answered once is asked again after writes and growth)
+            _, cval = mat.model_get(spec, expected, path)
+            for o, nm in ((ho, "handle"), (vo, "view")):
+                r = c01.check_nplike(o, cnode, cval)
+                if r:
+                    return fail(nm + "_" + r.clause, f"{stage} {path}: {r.detail}", r.sigkey)
         if spec["k"] == "unionref" and not path:
             continue
         a1 = sut(attrs, ho, cspec)
@@ -187,6 +196,25 @@ def run_case(case):
             if r:
                 r.labels = sorted(labels)
                 return r
+        # and a write after the growth, through the new view and through the handle
+        for w, tgt, nm in zip(case["writes"][:2], (view2, obj), ("new view", "handle")):
+            if not leaves:
+                break
+            path, lspec = leaves[(w["li"] + 1) % len(leaves)]
+            if not path:
+                continue
+            _, cur = mat.model_get(spec, expected, path)
+            new = fit_value(lspec, w, cur)
+            s = sut(mat.obj_set, tgt, node, path, new)
+            if is_raised(s):
+                return fail("write_raised", f"after growth {path} <- {new!r} via {nm}: {s}", s.key, labels)
+            mat.model_set(spec, expected, path, new)
+            labels.add("write_after_growth")
+            for v, vn in ((view, "old view"), (view2, "new view")):
+                r = compare_chains(obj, v, node, expected, labels, f"after growth and write via {nm} ({vn})")
+                if r:
+                    r.labels = sorted(labels)
+                    return r
     nontrivial = "nt" in labels
     labels.discard("nt")
     return Outcome(True, labels=sorted(labels), nontrivial=nontrivial)
